@@ -41,6 +41,42 @@ def _load_known() -> list:
     return [e for e in data.get("findings", []) if e.get("status", "open") == "open"]
 
 
+def _start_linecov():
+    """Optional (VERIF_LINECOV=<dir>): record which lines of the package the generated cases execute
+    (sys.monitoring, each location reported once, so the overhead is negligible).  Diagnostic only --
+    it measures what the generators reach; it decides nothing."""
+    d = os.environ.get("VERIF_LINECOV")
+    if not d or not hasattr(sys, "monitoring"):
+        return None
+    mon = sys.monitoring
+    tool = mon.COVERAGE_ID
+    try:
+        mon.use_tool_id(tool, "vf-linecov")
+    except ValueError:
+        pass
+    hits = set()
+    root = os.path.join(os.environ.get("LBFGSB_REPO", "/repo"), "lbfgsb") + os.sep
+
+    def on_line(code, line):
+        fn = code.co_filename
+        if fn.startswith(root):
+            hits.add((fn[len(root):], line))
+        return mon.DISABLE
+
+    mon.register_callback(tool, mon.events.LINE, on_line)
+    mon.set_events(tool, mon.events.LINE)
+    return hits
+
+
+def _dump_linecov(hits, prop, shard):
+    if hits is None:
+        return
+    d = os.environ["VERIF_LINECOV"]
+    os.makedirs(d, exist_ok=True)
+    with open(os.path.join(d, f"{prop}-{shard}.json"), "w") as fh:
+        json.dump(sorted(hits), fh)
+
+
 def _worker(args):
     prop, tier, seed, shard, nshards = args
     from vf.core import Ctx, HarnessError
@@ -52,11 +88,13 @@ def _worker(args):
 
     warnings.simplefilter("ignore")
     np.seterr(all="ignore")
+    cov = _start_linecov()
     try:
         mod = importlib.import_module(f"vf.props.{prop.lower()}")
         ctx = Ctx(prop, tier, seed, shard, nshards, _load_known())
         mod.shard(ctx)
         res = ctx.result()
+        _dump_linecov(cov, prop, shard)
         res["wall_s"] = time.time() - t0
         return res
     except HarnessError as e:
